@@ -98,7 +98,10 @@ type Analyzer struct {
 	// Returns and arguments of the entry function in the last Run
 	EntryRets []retInfo
 	EntryArgs []AVal
-	Trace     bool
+	// LoopPhis: for the loops of the entry function, each header phi with its symbolic header
+	// value and the values flowing in over the back edges (all in terms of the header symbols)
+	LoopPhis []LoopPhi
+	Trace    bool
 }
 
 // AllocSite is a make([]T, n) encountered.
@@ -304,6 +307,9 @@ func (in *inst) runOnce(args []AVal, st0 *State) {
 		in.block(b, st)
 		in.out[b] = st
 	}
+	if in.record && in.depth == 0 {
+		in.a.LoopPhis = nil
+	}
 	// check loop invariants on back edges
 	for _, l := range in.loops {
 		for _, ins := range l.Header.Instrs {
@@ -328,6 +334,18 @@ func (in *inst) runOnce(args []AVal, st0 *State) {
 					continue
 				}
 				inc := in.val(es, ph.Edges[i])
+				if in.record && in.depth == 0 {
+					found := false
+					for k := range in.a.LoopPhis {
+						if in.a.LoopPhis[k].Phi == ph {
+							in.a.LoopPhis[k].BackEdge = append(in.a.LoopPhis[k].BackEdge, inc)
+							found = true
+						}
+					}
+					if !found {
+						in.a.LoopPhis = append(in.a.LoopPhis, LoopPhi{Phi: ph, Header: hv, BackEdge: []AVal{inc}})
+					}
+				}
 				var keep []string
 				for _, t := range in.inv[ph] {
 					if in.templateHolds(es, t, hv, inc, true) {
@@ -1302,6 +1320,34 @@ func (in *inst) binaryCall(st *State, c *ssa.Call, callee *ssa.Function, args []
 		return n
 	}
 	return in.a.freshOf(st, c.Type(), c.Name())
+}
+
+// LoopPhi describes one loop-carried variable of the entry function.
+type LoopPhi struct {
+	Phi      *ssa.Phi
+	Header   AVal
+	BackEdge []AVal
+}
+
+// HeapAtReturn returns the abstract value of field path `path` of the object the idx-th
+// argument of the entry function points to, at return r.
+func (a *Analyzer) HeapAtReturn(r int, idx int, path string) (AVal, bool) {
+	if r >= len(a.EntryRets) || idx >= len(a.EntryArgs) || a.EntryArgs[idx].Kind != KAddr {
+		return AVal{}, false
+	}
+	base := a.EntryArgs[idx]
+	p := path
+	if base.Path != "" {
+		p = base.Path + "." + path
+	}
+	v, ok := a.EntryRets[r].State.Heap[heapKey(base.Obj, p)]
+	return v, ok
+}
+
+// EntryReturn exposes the idx-th return of the entry function: instruction, results, facts.
+func (a *Analyzer) EntryReturn(idx int) (*ssa.Return, []AVal, []Ineq) {
+	r := a.EntryRets[idx]
+	return r.Ret, r.Results, r.State.Facts
 }
 
 // RetCheck is the verdict on one return of the entry function.
